@@ -164,3 +164,11 @@ Definition known_enum_guard (p : program) : bool :=
   prog_exists (fun e => match e with
                         | ECmp _ (CLt | CLe | CGt | CGe) a _ => is_enum vars a
                         | _ => false end) p.
+
+(* type checker: `==` / `!=` with a compound Bool expression on the left (`(True and False) != (4 == 0)`) registers a
+   guard whose target is that *expression*; inside the guarded branch a syntactically equal expression is given the
+   guard's type and is no longer wrapped in Bool: `print!(True and False)` prints 0 instead of False *)
+Definition known_expr_guard_cast : program -> bool :=
+  prog_exists (fun e => match e with
+                        | ECmp _ (CEq | CNe) (ELogic _ _ _ _ | ECmp _ _ _ _ | EUn _ UNot _) _ => true
+                        | _ => false end).
